@@ -134,3 +134,15 @@ Definition delta_build_no_readd (nb : nat) (st : istate) (cur : snap) : istate :
   let c := delta_changed nb (st_last st) cur in
   let d := gen_docs nb cur (delta_cands nb (st_last st) cur) (fun b p => changed_in (st_last st) cur b p) in
   mkState (map (add_tombs c) (st_stack st) ++ (match d with [] => [] | _ => [mkLayer d []] end)) cur.
+
+(** The code BEFORE the repair `fix: gitindex: delta builds treat a file replaced by a submodule as a deletion ...`:
+    prepareDeltaBuild used object.Change.Files, which returns (nil, nil) as soon as ONE side of a change is not a file
+    (a submodule entry / gitlink), so such changes were skipped altogether.  In this model a gitlink is simply absent from
+    the tree (it is never indexed); [ign b p] marks the changes of branch b that involve a gitlink at p.  Used only in
+    Props/C13.v (C13_before_fix_refuted). *)
+Definition delta_build_ignoring (ign : nat -> path -> bool) (nb : nat) (st : istate) (cur : snap) : istate :=
+  let last := st_last st in
+  let chg := fun b p => changed_in last cur b p && negb (ign b p) in
+  let c := filter (fun p => existsb (fun b => is_some (lookup (tree_of last b) p) && chg b p) (seq 0 nb)) (delta_cands nb last cur) in
+  let d := gen_docs nb cur (delta_cands nb last cur) (fun b p => chg b p || memN p c) in
+  mkState (map (add_tombs c) (st_stack st) ++ (match d with [] => [] | _ => [mkLayer d []] end)) cur.
